@@ -445,6 +445,15 @@ class SymEngine:
                 return b[3]
         if b[0] == "upd" and b[2] == i:
             return b[3]
+        if b[0] == "iter" and b[1][0] == "call" and b[1][1] == "ext:enumerate" and len(b[1][2]) == 1 and not b[1][3] and is_c(i) and i[1] in (0, 1) \
+                and type(i[1]) is int:
+            x = b[1][2][0]
+            if i[1] == 1:
+                return ("iter", x, b[2])  # the element enumerate() hands out is the element of what it enumerates
+            if x[0] == "call" and x[1] == "ext:reversed" and len(x[2]) == 1 and x[2][0][0] == "call" and x[2][0][1] == "ext:range" and len(x[2][0][2]) == 1:
+                # position p of reversed(range(n)) holds the value n - 1 - p: the position is (n - 1) - value
+                n_ = x[2][0][2][0]
+                return self.mk_bin("-", self.mk_bin("-", n_, C(1)), ("iter", x, b[2]))
         if b[0] == "slice" and is_c(i) and isinstance(i[1], int) and not isinstance(i[1], bool) and i[1] >= 0 and b[2] is not None \
                 and not (is_c(b[2]) and isinstance(b[2][1], int) and b[2][1] < 0):
             # x[a:b][k] is x[a + k] (k >= 0, a not a negative literal; an index past the slice raises either way)
